@@ -266,14 +266,26 @@ impl Run {
         let mut printed_known = BTreeSet::new();
         let mut new_violations: Vec<&Violation> = Vec::new();
         let mut known_hits = 0u64;
+        let mut hits_by_sig: BTreeMap<String, u64> = BTreeMap::new();
         for v in &g.violations {
-            if let Some(what) = known.get(&v.sig) {
+            if known.contains_key(&v.sig) {
                 known_hits += 1;
-                if printed_known.insert(v.sig.clone()) {
-                    println!("KNOWN-FINDING: property={} sig={} {}", self.prop, v.sig, what);
-                }
+                *hits_by_sig.entry(v.sig.clone()).or_insert(0) += 1;
+                printed_known.insert(v.sig.clone());
             } else {
                 new_violations.push(v);
+            }
+        }
+        // every listed finding of this property is named, whether this run reached it or not
+        if self.replay.is_none() {
+            for (sig, what) in &known {
+                println!(
+                    "KNOWN-FINDING: property={} sig={} {} [observed {} times in this run]",
+                    self.prop,
+                    sig,
+                    what,
+                    hits_by_sig.get(sig).copied().unwrap_or(0)
+                );
             }
         }
         let replay_dir = verif_dir().join("replays");
